@@ -279,6 +279,8 @@ def compare(R, f, ref, now, module_funcs=None, counts=None, repo=None, module_co
       continue
     if module_funcs is not None and '.' not in callee and callee not in module_funcs:
       continue  # the called helper itself was removed / inlined
+    if any((isinstance(x, ast.Attribute) and x.attr == tail) or (isinstance(x, ast.Name) and x.id == tail) for x in _own_nodes(f.node) if isinstance(getattr(x, 'ctx', None), ast.Load)):
+      continue  # the function is still referred to as a value (`fn = io.rmtree if … else io.remove; fn(path)`, `map(f, xs)`)
     if counts is not None and counts[1].get(tail, 0) >= counts[0].get(tail, 0):
       continue  # the call moved to another function of the module (a helper was extracted)
     if repo is not None:
@@ -340,6 +342,8 @@ def compare(R, f, ref, now, module_funcs=None, counts=None, repo=None, module_co
     if cur is None:
       continue
     n_cmp += 1
+    if cur[0] != rv and (cur[0] < 0) != (rv < 0) and not (rv == 0 and cur[0] == -1) and not (rv == -1 and cur[0] == 0):
+      continue  # counted from the other end (`xs[1]` / `xs[-1]` of a pair): the same element or not depends on the length, which is not known here
     if cur[0] != rv:
       R.fail(key_of(f, 'element %d of %s' % (rv, base)), (f, cur[1]), '`%s[%d]` selects another element than on the reference tree (`%s[%d]`)' % (base, cur[0], base, rv))
   for key, (rl, rr, _l) in ref['bin'].items():
@@ -457,7 +461,7 @@ def _skel(n, leaves, strip=None):
 _POSITIVE = {ast.IsNot: ast.Is, ast.NotEq: ast.Eq, ast.NotIn: ast.In}
 
 
-def _simple_statements(fn):
+def _simple_statements(fn, loose=False):
   for n in _own_nodes(fn):
     if isinstance(n, (ast.Assign, ast.AugAssign, ast.AnnAssign, ast.Return, ast.Expr)) and not (isinstance(n, ast.Expr) and isinstance(n.value, ast.Constant)):
       if isinstance(n, ast.Expr) and isinstance(n.value, ast.Call) and ((astu.call_name(n.value) or '').startswith('logging.') or (astu.call_name(n.value) or '').startswith('warnings.')):
@@ -467,14 +471,16 @@ def _simple_statements(fn):
       t = n.test
       while isinstance(t, ast.UnaryOp) and isinstance(t.op, ast.Not):
         t = t.operand  # the polarity of a test goes with the arrangement of its branches, which is not compared here
-      if isinstance(t, ast.Compare) and len(t.ops) == 1 and type(t.ops[0]) in _POSITIVE:
+      if loose and isinstance(t, ast.Compare) and len(t.ops) == 1 and type(t.ops[0]) in _POSITIVE:
         t = ast.Compare(left=t.left, ops=[_POSITIVE[type(t.ops[0])]()], comparators=t.comparators)
       yield ast.Expr(value=t, lineno=n.lineno, col_offset=0)
 
 
-def statements(fn):
+def statements(fn, loose=False):
+  """[skeleton hash, leaves, line] per simple statement / test.  `loose`: a negative comparison at the top of a test reads as its
+  positive form (`x is not None` like `x is None`): used only to recognise statements that are accounted for, never to pair them."""
   out = []
-  for st in _simple_statements(fn):
+  for st in _simple_statements(fn, loose):
     leaves = []
     try:
       t = _skel(st, leaves)
@@ -512,7 +518,7 @@ def stmt_table(repo, rels):
     for q, f in m._funcs.items():
       s = statements(f.node)
       if s:
-        out['%s|%s' % (rel, q)] = {'stmts': s, 'params': astu.params(f.node), 'alias': simple_aliases(f.node)}
+        out['%s|%s' % (rel, q)] = {'stmts': s, 'params': astu.params(f.node), 'alias': simple_aliases(f.node), 'loose': [h for h, _l, _n in statements(f.node, loose=True)]}
   return out
 
 
@@ -558,13 +564,19 @@ def compare_statements(R, f, ref, now):
   nv = vocab(astu.params(f.node), now)
   ref_exact = {(h, tuple(l)) for h, l, _ in ref['stmts']}
   now_exact = {(h, tuple(l)) for h, l, _ in now}
+  # a test whose polarity was inverted together with the arrangement of its branches is accounted for, not replaced
+  rl_h = ref.get('loose') or [h for h, _l, _n in ref['stmts']]
+  ref_loose = {(hl, tuple(l)) for hl, (_h, l, _n) in zip(rl_h, ref['stmts'])}
+  now_loose_list = statements(f.node, loose=True)
+  now_loose = {(h, tuple(l)) for h, l, _ in now_loose_list}
+  loose_of = {(h1, tuple(l1)): (h2, tuple(l2)) for (h1, l1, _a), (h2, l2, _b) in zip(now, now_loose_list)}
   n = 0
-  for h, rl, _l in ref['stmts']:
-    if (h, tuple(rl)) in now_exact:
+  for (h, rl, _l), hl in zip(ref['stmts'], rl_h):
+    if (h, tuple(rl)) in now_exact or (hl, tuple(rl)) in now_loose:
       continue
     cands = []
     for h2, nl, line in now:
-      if h2 != h or len(nl) != len(rl) or (h2, tuple(nl)) in ref_exact:
+      if h2 != h or len(nl) != len(rl) or (h2, tuple(nl)) in ref_exact or loose_of.get((h2, tuple(nl))) in ref_loose:
         continue
       diff = [i for i in range(len(rl)) if rl[i] != nl[i]]
       if len(diff) == 1 and not rl[diff[0]].startswith('=') and not nl[diff[0]].startswith('='):
